@@ -22,7 +22,7 @@ import sys
 from sim import core, shrink as shr
 from sim.simfs import SimFS
 from sim.ref import pipeline
-from sim.producers import text as ptext, stl as pstl, ttml as pttml
+from sim.producers import text as ptext, stl as pstl, ttml as pttml, scc608 as pscc
 
 core.ensure_repo_on_path()
 
@@ -77,7 +77,7 @@ TIERS = {
 RESTART_EVERY = 8
 HASHSEEDS = ["0", "1", "31337"]
 
-PRODUCERS = {"srt": ptext.srt, "vtt": ptext.vtt, "scc": ptext.scc_simple, "stl": pstl.stl, "ttml": pttml.ttml}
+PRODUCERS = {"srt": ptext.srt, "vtt": ptext.vtt, "scc": pscc.scc_mixed, "stl": pstl.stl, "ttml": pttml.ttml}
 IN_FORMATS = ["ttml", "scc", "stl", "srt", "vtt"]
 OUT_FORMATS = ["ttml", "srt", "vtt"]
 
